@@ -2,6 +2,9 @@ import DendroModel.Model.C15
 import DendroModel.Model.C15Ext
 import DendroModel.Theory.C15Ext
 import DendroModel.Theory.C15Age
+import DendroModel.Theory.C15Build
+import DendroModel.Theory.C15Ptr
+import DendroModel.Theory.C15Level
 /-! C15 — property theorems: every traversal machine yields exactly its defining order, for every
 tree, every start node (a start node is the root of the `T` the machine is run on) and every filter.
 Only property theorems live in `namespace DendroModel.C15` of this file; helper lemmas are in
@@ -800,5 +803,143 @@ theorem tree_internal_lists_spec (excl : Bool) (t : T) (hid : ∀ x ∈ T.nodesL
 example : (treeInternalNodes true
     (.node 0 none none none [.node 1 none none none [.node 2 none none none []], .node 3 none none none []])).map T.id = [1] := by
   decide
+
+end DendroModel.C15
+
+/-! ## extension round: what was compared only is now proved
+
+(1) the distinct-ids hypothesis is discharged for every tree the protocol parser can return; (2) the parent chain of
+`ancestor_iter` is refined from a pointer-level climb over the parent array; (3) level order has explicit,
+non-decreasing depths, and the callback trace is a Dyck word with matching labels. -/
+namespace DendroModel.C15
+open DendroModel DendroModel.C15.Aux DendroModel.C15.ExtAux DendroModel.C15.BuildAux DendroModel.C15.PtrAux
+  DendroModel.C15.LevelAux
+
+/-- every tree `parseTree` returns has pairwise distinct node ids — for ANY token list it accepts, including parent
+arrays with cycles or dangling entries (those are unreachable from the entry whose parent is -1) -/
+theorem protocol_ids_distinct (toks : List String) (tree : T) (rest : List String)
+    (h : parseTree toks = some (tree, rest)) : ((T.nodes tree).map T.id).Nodup := by
+  obtain ⟨f, par, tax, lens, labs, r, _, rfl, hr⟩ := parseTree_build toks tree rest h
+  exact ids_nodup par tax lens labs f r (acyc_root par r hr)
+
+/-- hence every start node the driver can pick (`find?`) roots a subtree with distinct ids: the hypothesis of
+`internal_nodes_spec` / `tree_internal_lists_spec` holds for all driver inputs -/
+theorem protocol_subtree_ids_distinct (toks : List String) (tree : T) (rest : List String) (start : Nat) (t : T)
+    (h : parseTree toks = some (tree, rest)) (hf : tree.find? start = some t) :
+    ((T.nodes t).map T.id).Nodup ∧ ∀ x ∈ T.nodesL t.cs, x.id ≠ t.id := by
+  have hn : ((T.nodes t).map T.id).Nodup :=
+    List.Nodup.sublist ((find?_sublist start tree t hf).map T.id) (protocol_ids_distinct toks tree rest h)
+  exact ⟨hn, hid_of_nodup t hn⟩
+
+/-- `internal_nodes_spec` for driver inputs, without any hypothesis on ids -/
+theorem internal_nodes_driver_spec (toks : List String) (tree : T) (rest : List String) (start : Nat) (t : T)
+    (h : parseTree toks = some (tree, rest)) (hf : tree.find? start = some t)
+    (excl hasParent : Bool) (keep : T → Bool) :
+    preIter (internalKeep excl t.id hasParent keep) t
+      = (if (excl && !hasParent) = true then [] else [t].filter (fun x => !x.isLeaf && keep x))
+        ++ (T.nodesL t.cs).filter (fun x => !x.isLeaf && keep x)
+    ∧ postIter (internalKeep excl t.id hasParent keep) t
+      = (postL t.cs).filter (fun x => !x.isLeaf && keep x)
+        ++ (if (excl && !hasParent) = true then [] else [t].filter (fun x => !x.isLeaf && keep x)) :=
+  internal_nodes_spec excl hasParent keep t (protocol_subtree_ids_distinct toks tree rest start t h hf).2
+
+/-- `tree_internal_lists_spec` for driver inputs -/
+theorem tree_internal_lists_driver_spec (toks : List String) (tree : T) (rest : List String) (start : Nat) (t : T)
+    (h : parseTree toks = some (tree, rest)) (hf : tree.find? start = some t) (excl : Bool) :
+    treeInternalNodes excl t
+      = (if excl = true then [] else [t].filter (fun x => !x.isLeaf)) ++ (T.nodesL t.cs).filter (fun x => !x.isLeaf)
+    ∧ treeInternalEdges excl t = (treeInternalNodes excl t).map E.mk :=
+  tree_internal_lists_spec excl t (protocol_subtree_ids_distinct toks tree rest start t h hf).2
+
+/-- non-vacuity: what `parseTree` returns is `buildTree` from an entry with parent -1 (`parseTree_build`); such a tree,
+here over an array that also holds a 2-cycle (entries 3, 4) which stays unreachable.  (That `parseTree` accepts the
+harness's token lists is witnessed at run time: the driver answers `bad-op` otherwise; string parsing does not reduce
+in the kernel.) -/
+example : (T.nodes (buildTree 6 #[-1, 0, 0, 4, 3] #[none, none, none, none, none] #[none, none, none, none, none]
+    #[none, none, none, none, none] 0)).map T.id = [0, 1, 2] := by decide
+
+/-- refinement of `ancestor_iter`: on every protocol tree, the chain the model computes on the way down (`ancIter`,
+which `ancestor_spec` characterises) is, id for id, what the code's loop `node = node._parent_node` yields on the
+parent array (`ancPtrIter` = `climbIds`, which the driver also runs as kind `ancptr`); `tree.size` steps of fuel
+suffice -/
+theorem ancestor_pointer_refinement (toks : List String) (tree : T) (rest : List String) (par : Array Int)
+    (start : Nat) (self : T) (keep : Nat → Bool) (incl : Bool)
+    (h : parseTree toks = some (tree, rest)) (hp : parsePar toks = some par) (hf : tree.find? start = some self) :
+    (ancIter (fun t => keep t.id) incl tree start).map (List.map T.id)
+      = some (ancPtrIter keep incl par tree.size start) := by
+  obtain ⟨f, par', tax, lens, labs, r, hp', rfl, hr⟩ := parseTree_build toks tree rest h
+  rw [hp] at hp'
+  simp only [Option.some.injEq] at hp'
+  subst hp'
+  obtain ⟨up, hanc, hch, hlast⟩ := ancestor_spec (fun t => keep t.id) incl _ start self hf
+  have hid : self.id = start := find?_id start _ self hf
+  have hsz := upChain_size _ up self hch hlast
+  have hpos := size_pos self
+  have hclimb := climb_chain par _ (fun b hb => build_linked par tax lens labs f r b hb)
+    (by rw [build_id]; exact hr) up self hch hlast (buildTree f par tax lens labs r).size (by omega)
+  rw [hanc]
+  simp only [Option.map_some, ancPtrIter, Option.some.injEq, List.map_append]
+  rw [← hid, hclimb, List.filter_map]
+  congr 1
+  by_cases hk : (incl && keep self.id) = true <;> simp [hk]
+
+example : ancPtrIter (fun _ => true) true #[-1, 0, 1, 0] 4 2 = [2, 1, 0] := by decide
+
+/-- level order, with depths made explicit: the output is generation 0 (the start), then generation 1 (its children,
+left to right), then generation 2, …, filtered; `genL k [t]` are the nodes at depth `k` below `t` -/
+theorem levelorder_generations (keep : T → Bool) (t : T) :
+    levelIter keep t = ((List.range (height t)).flatMap (fun k => genL k [t])).filter keep := by
+  rw [levelorder_spec, bfs_eq_gens]
+
+/-- non-decreasing depth: the level-order output can be annotated with depths such that every node carries the depth
+it really has (`x ∈ genL d [t]`), every yielded node passes the filter, and the depths never decrease -/
+theorem levelorder_depth_monotone (keep : T → Bool) (t : T) :
+    ∃ ds : List (Nat × T), ds.map Prod.snd = levelIter keep t
+      ∧ ds.Pairwise (fun a b => a.1 ≤ b.1)
+      ∧ ∀ p ∈ ds, p.2 ∈ genL p.1 [t] ∧ keep p.2 = true := by
+  refine ⟨((List.range (height t)).flatMap (fun k => (genL k [t]).map (fun x => (k, x)))).filter (fun p => keep p.2),
+    ?_, ?_, ?_⟩
+  · rw [levelorder_generations, ← tag_snd (fun k => genL k [t]), List.filter_map]
+    rfl
+  · exact (tag_pairwise (fun k => genL k [t]) _ List.pairwise_le_range).sublist List.filter_sublist
+  · intro p hp
+    have := List.mem_filter.mp hp
+    exact ⟨tag_mem (fun k => genL k [t]) _ p this.1, this.2⟩
+
+example : ((genL 1 [T.node 0 none none none [.node 1 none none none [.node 2 none none none []], .node 3 none none none []]]).map T.id)
+    = [1, 3] := by decide
+
+/-- bracket matching of the callback traversal, as a Dyck-word statement: checked with the stack of open nodes, every
+`after i` closes the innermost open node and that node is `i`, and nothing stays open; moreover the first callbacks
+(`before`/`leaf`) arrive in pre-order and the last callbacks (`leaf`/`after`) in post-order of the start subtree, so
+every node is opened and closed exactly once -/
+theorem apply_dyck (t : T) :
+    dyck [] (applyTrace t) = true
+    ∧ opens (applyTrace t) = (pre t).map T.id
+    ∧ closes (applyTrace t) = (post t).map T.id := by
+  rw [apply_spec]
+  refine ⟨?_, opens_br t, closes_br t⟩
+  have := dyck_br t [] []
+  simpa [dyck] using this
+
+/-- refinement of the callback walk, first step: the machine that carries, for every stacked node, its chain of
+ancestors up to the start node together with the code's own test "is the node below the LAST child" and climbs that
+chain exactly as the `while` loop of `Node.apply` does (`climbZip`), emits the same trace as the closer-list rendering
+`applyTrace`, hence the bracket sequence of the start subtree.
+`_partial` with respect to focus item 2: the remaining step — reading the zipper context off a parent array
+(`isLast` = `kidsOf(parent).getLast? = node`, the chain = iterated parent pointers, which needs `buildTree`'s fuel
+adequacy and a fuel-insensitive climb) — is not proved; it stays tied by the per-case comparison. -/
+theorem apply_zipper_refinement_partial (t : T) : applyZipTrace t = applyTrace t ∧ applyZipTrace t = br t := by
+  have h : applyZipTrace t = applyTrace t := by
+    unfold applyZipTrace applyTrace
+    rw [applyZipRun_eq]
+    rfl
+  exact ⟨h, h.trans (apply_spec t)⟩
+
+example : applyZipTrace (.node 0 none none none [.node 1 none none none [.node 2 none none none []], .node 3 none none none []])
+    = [.before 0, .before 1, .leaf 2, .after 1, .leaf 3, .after 0] := by decide
+
+example : dyck [] [.before 0, .leaf 1, .after 0] = true ∧ dyck [] [.before 0, .leaf 1, .after 2] = false
+    ∧ dyck [] [.leaf 1, .after 0] = false := by decide
 
 end DendroModel.C15
